@@ -66,6 +66,23 @@ FIXED = {
         "calls": [{"args": [["n", "K1", 0, [["n", "K2", 1, []]]]]}, {"args": [["n", "K2", 2, []]]},
                   {"args": [["n", "K0", 1, []]]}],
     },
+    # optional positional and optional keyword-only parameters: the generated entry point relies on
+    # __defaults__ / __kwdefaults__, and the calls below omit the optional arguments
+    "opt": {
+        "spec": {"classes": _CL, "hooks": [], "deps": [], "methods": {
+            "m0": {"params": [["a0", "pos", ["o"], False], ["a1", "pos", ["o"], True]],
+                   "prio": 0, "body": ["leaf"]},
+            "m1": {"params": [["a0", "pos", ["c", "K0"], False], ["a1", "pos", ["c", "K0"], True],
+                              ["k0", "kw", ["o"], True]], "prio": 0, "body": ["next"]},
+            "m2": {"params": [["a0", "pos", ["c", "K1"], False], ["k0", "kw", ["c", "K0"], True]],
+                   "prio": 0, "body": ["next"]},
+        }, "meta": {"min_ar": 1, "max_ar": 2, "flavour": ["cls", "cls"], "has_kw": True,
+                    "mixed": False}},
+        "regs": [["m0"], ["m1"], ["m2"]],
+        "calls": [{"args": [["n", "K1", 0, []]]},
+                  {"args": [["n", "K2", 0, []]], "kw": {"k0": ["n", "K0", 0, []]}},
+                  {"args": [["int", 1]]}],
+    },
 }
 
 # scenario shapes for the fixed worlds: (prewarm index or None, thread0 call idx, thread1 call idx)
